@@ -624,3 +624,85 @@ def o7_4c_confirm(v, out):
 
 def o7_4c_witness_ok(w, out):
     return out.get('_rc') == 0 and int(out['level']) == w['executor_result']
+
+
+# ---------------------------------------------------------------- O1.4 Version::get_overlapping_files
+def o1_4_overlapping_files(mir, tier):
+    fn = mir.method('Version', 'get_overlapping_files')
+    shapes = [(3, 0, 0), (2, 2, 0), (1, 2, 2), (0, 3, 1)] if tier == 'quick' else [s for s in itertools.product(range(0, 4), repeat=3) if 0 < sum(s) <= 6]
+    res = Result('O1.4 Version::get_overlapping_files', [fn.path, 'find_file_with_upper_bound_range (inlined)'],
+                 'files at levels 0,1,2 in shapes %s; level-0 file numbers symbolic and distinct; free lookup key' % (shapes if tier == 'quick' else '%d shapes with <= 6 files' % len(shapes),))
+    t0 = time.time()
+    for shape in shapes:
+        w = World(mir)
+        lv = {0: [w.file('z%d' % i) for i in range(shape[0])], 1: [w.file('a%d' % i, number=100 + i) for i in range(shape[1])], 2: [w.file('b%d' % i, number=200 + i) for i in range(shape[2])]}
+        LF = {l: [w.F(f) for f in fs] for l, fs in lv.items()}
+        tk = w.key('t'); T = w.K(tk)
+        pre = list(w.pre) + [kle(f['sm'], f['lg']) for f in LF[0]] + sorted_disjoint(LF[1]) + sorted_disjoint(LF[2])
+        pre += [ULT(f['num'], bv(100)) for f in LF[0]] + [LF[0][i]['num'] != LF[0][j]['num'] for i in range(shape[0]) for j in range(i)]
+        ex = Exec(mir, base_summaries(mir), loop_bound=sum(shape) + 10)
+        numf = mir.field('FileMetadata', 'file_number')
+        def k(ret, env, pc, ex=ex, LF=LF, shape=shape):
+            posts = []
+            got0 = [f[numf] for f in ret[0]]
+            ins = [any(g.eq(f['num']) for g in got0) for f in LF[0]]
+            for i, f in enumerate(LF[0]):
+                cont = And(ULE(f['sm'][0], T[0]), ULE(T[0], f['lg'][0]))
+                posts.append(('level 0: result is not exactly the files whose user range contains the key', cont == BoolVal(ins[i])))
+            posts.append(('level 0: files are not ordered newest (highest number) first', And(*[UGT(a, b) for a, b in zip(got0, got0[1:])]) if len(got0) > 1 else BoolVal(True)))
+            posts.append(('level 0: a file is returned twice', BoolVal(len(got0) == sum(ins))))
+            for l in (1, 2):
+                g = [f[numf] for f in ret[l]]
+                n = len(LF[l])
+                # reference: first file with largest >= target, kept iff its smallest user key <= target user key
+                cases = [BoolVal(len(g) == 0)] if n == 0 else []
+                for i in range(n):
+                    first = And(*[klt(LF[l][j]['lg'], T) for j in range(i)], kle(T, LF[l][i]['lg']))
+                    keep = ULE(LF[l][i]['sm'][0], T[0])
+                    cases.append(And(first, keep, BoolVal(len(g) == 1 and g[0].eq(LF[l][i]['num']))))
+                    cases.append(And(first, Not(keep), BoolVal(len(g) == 0)))
+                if n: cases.append(And(*[klt(f['lg'], T) for f in LF[l]], BoolVal(len(g) == 0)))
+                posts.append(('level %d: result is not the unique candidate file (first file with largest key >= lookup key, if it starts at or before the user key)' % l, Or(*cases)))
+            for l in range(3, 7): posts.append(('deeper empty level returned files', BoolVal(len(ret[l]) == 0)))
+            def argv(m): return ['overlapping_files', '%s:%d' % (key_bytes(mval(m, T[0])), mval(m, T[1]))] + _levels_argv(m, LF)
+            def render(m): return [[mval(m, x) for x in (f[numf] for f in ret[l])] for l in range(3)]
+            bad = False
+            for label, post in posts:
+                ex.record_formula(label, pc, Not(post))
+                m = ex.model(Not(post))
+                if m is not None:
+                    bad = True; res.violations.append({'label': label, 'shape': list(shape), 'executor_result': render(m), 'replay': argv(m)})
+            if not bad and len(res.witnesses) < 4 and sum(len(ret[l]) for l in range(3)) >= 2:
+                m = ex.model(); res.witnesses.append({'executor_result': render(m), 'replay': argv(m)})
+        env = {'$state': {}, '$v': mk_version(mir, lv), '$t': tk}
+        ex.top(fn, [Ref('$v'), Ref('$t')], env, pre, k)
+        res.absorb(ex)
+        for pc, msg, where in ex.panics:
+            res.panic_paths += 1; res.violations.append({'label': 'panic path: ' + msg[:80], 'shape': list(shape), 'replay': None})
+    res.wall_s = time.time() - t0
+    if res.violations: res.status = 'violation'
+    return res
+
+
+def _ref_overlapping_files(T, lv):
+    out = {}
+    out[0] = [f['num'] for f in sorted([f for f in lv.get(0, []) if f['sm'][0] <= T[0] <= f['lg'][0]], key=lambda f: -f['num'])]
+    for l in (1, 2, 3, 4, 5, 6):
+        out[l] = []
+        for f in lv.get(l, []):
+            if not (_kcmp_key(f['lg']) < _kcmp_key(T)):
+                if f['sm'][0] <= T[0]: out[l] = [f['num']]
+                break
+    return out
+
+
+def o1_4_confirm(v, out):
+    if out.get('_rc') != 0: return (False, 'native run failed: %s' % out.get('_stderr', '')[-200:])
+    a = v['replay']; t = a[1].split(':'); T = (int(t[0], 16), int(t[1])); lv = _parse_levels(a[2:])
+    exp = _ref_overlapping_files(T, lv)
+    got = {l: [int(x) for x in out.get('l%d' % l, '').split(',') if x] for l in range(7)}
+    return (any(got[l] != exp[l] for l in range(7)), 'native %s, reference %s' % ([got[l] for l in range(3)], [exp[l] for l in range(3)]))
+
+
+def o1_4_witness_ok(w, out):
+    return out.get('_rc') == 0 and [[int(x) for x in out.get('l%d' % l, '').split(',') if x] for l in range(3)] == w['executor_result']
